@@ -94,4 +94,8 @@ theorem dispatch_independentSegments : dispatch pfxIndependentSegments = .ok .in
   unfold pfxIndependentSegments; dispatch_eval
   all_goals (first | rfl | decide)
 
+theorem dispatch_playlistType (r : Str) :
+    dispatch (playlistTypePrefix ++ r) = (PlaylistType.parse (playlistTypePrefix ++ r)).map .playlistType := by
+  unfold playlistTypePrefix; dispatch_eval
+
 end Hls
